@@ -359,3 +359,8 @@ def run(ctx):
         'setdefault on SymbolTable has no specified return value (exempt)',
         'TLC and the TLA+ module SymTab are trusted; the harness only records (no reference model in python)',
     ]
+
+
+def selftest(ctx):
+    from .. import selftests
+    return selftests.c12(ctx)
